@@ -610,6 +610,12 @@ class Universe:
             self.add(g, n, "typedef")
         self.line("typedef-chain", "typedef int I32; typedef I32 I32b; typedef int (*FP)(int); typedef int Arr3[3]; "
                                    "typedef const char *CStr;")
+        self.line("explicit-specialisation",
+                  "template<class T> struct Tr { typedef T *type; typedef T elem; }; "
+                  "template<> struct Tr<int> { typedef long type; typedef unsigned short elem; }; "
+                  "namespace na { template<class T, int N = 1> struct Qs { typedef T type[N]; }; "
+                  "template<> struct Qs<bool> { typedef unsigned char type; }; "
+                  "template<> struct Qs<char, 3> { typedef const char *type; }; }")
         self.add(g, "GE", "enum")
         self.add(g, "GEC", "eclass")
         self.line("enum", "enum GE { ge1 }; enum class GEC : short { c1 };")
@@ -962,6 +968,61 @@ class DeclGen:
         self.host_scopes[h["id"]] = a.inner
         return h
 
+    def new_chain_host(self, k, variant):
+        """class template with chained default template arguments; instantiated with >= 2 trailing arguments omitted"""
+        r = self.rng
+        u = self.u
+        name = f"TD{k}"
+        a = u.add(u.glob, name, "class")
+        u.atoms.remove(a)
+        alias = f"TDI{k}"
+        if variant == "type":
+            head = f"template<class T, class U = T *, class W = const U *> struct {name} {{"
+            arg = r.choice(["int", "char", "G"])
+        else:
+            head = f"template<int N = 2, int M = N + 1, int L = M * 2> struct {name} {{"
+            arg = r.choice(["", "4", "1+2"])
+        post = (f"typedef {name}<{arg}> {alias};" if r.random() < 0.5 else f"using {alias} = {name}<{arg}>;")
+        h = {"id": f"h{k}", "open": head, "close": "};", "qual": f"{name}<{arg}>", "anchor": alias, "post": post,
+             "nested": [], "tparam": True}
+        self.hosts.append(h)
+        self.host_scopes[h["id"]] = a.inner
+        for _ in range(4):
+            self.nid += 1
+            kk = self.nid
+            if variant == "type":
+                b = lambda n: ["base", n, "", True, "", "tparam-with-chained-default"]
+                t = r.choice([b("U"), b("W"), ["ptr", "", b("W")], ["lref", ["base", "U", "const", True, "", "tparam-with-chained-default"]],
+                              ["ptr", "", b("U")]])
+            else:
+                el = r.choice([list(INT), ["base", "char", "", True, "", "builtin"]])
+                t = r.choice([["arr", "M", el], ["arr", "L", el], ["ptr", "", ["arr", "M", el]], ["arr", "N", ["arr", "L", el]]])
+            kind = r.choice(["member", "member", "method", "smethod"])
+            if kind == "member":
+                if t[0] == "lref":
+                    t = t[1]
+                self.decls.append({"id": kk, "name": f"dm_{kk}", "kind": "member", "site": h["id"], "type": t})
+            else:
+                self.decls.append({"id": kk, "name": ("m" if kind == "method" else "sm") + f"_{kk}", "kind": kind, "site": h["id"],
+                                   "ret": list(VOID), "params": [t], "pnames": True, "cvq": "", "virtual": False})
+        return h
+
+    def specialisation_members(self):
+        """qualified names of members of explicit full specialisations (and of the primary template, as control)"""
+        r = self.rng
+        names = ["Tr<int>::type", "Tr<int>::elem", "Tr<char>::type", "Tr<bool>::elem", "na::Qs<bool>::type",
+                 "na::Qs<char, 3>::type", "na::Qs<float>::type", "na::Qs<char, 2>::type"]
+        for nm in r.sample(names[:2], 1) + r.sample(names[2:4], 1) + r.sample(names[4:6], 1) + r.sample(names[6:], 1):
+            self.nid += 1
+            k = self.nid
+            b = ["base", nm, "", True, "", "spec-member" if nm in names[:2] + names[4:6] else "primary-member"]
+            t = r.choice([b, ["ptr", "", b], ["lref", ["base", nm, "const", True, "", b[5]]]])
+            if r.random() < 0.5:
+                self.decls.append({"id": k, "name": f"v_{k}", "kind": "var", "site": "global", "type": t if t[0] != "lref" else b})
+            else:
+                self.decls.append({"id": k, "name": f"f_{k}", "kind": "func", "site": "global", "ret": list(VOID), "params": [t],
+                                   "pnames": True, "cvq": "", "virtual": False})
+
     def kbound_type(self, ctx):
         """array types whose bound is the template parameter K; non-dependent element types"""
         r = self.rng
@@ -1104,6 +1165,10 @@ class DeclGen:
         h = self.new_tparam_host(k + len(shapes))
         for _ in range(5):
             self.new_tparam_decl(h["id"])
+        k = len(self.hosts)
+        self.new_chain_host(k, "type")
+        self.new_chain_host(k + 1, "int")
+        self.specialisation_members()
         self.variadic_twins()
         self.fn_template_args()
         self.u.apply_late()
